@@ -346,6 +346,165 @@ theorem bip39Entropy_eq_some_iff (hH : ∀ b, (H b).length = 32) (idx : List Nat
     rw [Option.some.inj h1]
     exact h4
 
+/-! #### all the sizes btclib accepts (`entropy._bits` contains 512: 48 words) -/
+
+theorem bip39_roundtrip_all (hH : ∀ b, (H b).length = 32) (e : Bits)
+    (hL : e.length ∈ Gen.Mnemonic.ENTROPY_BITS) :
+    ∃ idx, bip39Indexes H e = some idx ∧ idx.length = e.length / 32 * 3 ∧ (∀ i ∈ idx, i < 2048) ∧
+      bip39Entropy H idx = some e := by
+  have hL' : e.length = 128 ∨ e.length = 160 ∨ e.length = 192 ∨ e.length = 224 ∨ e.length = 256 ∨
+      e.length = 512 := by
+    simpa [Gen.Mnemonic.ENTROPY_BITS] using hL
+  have hcs := csBits_length H hH e (by omega)
+  have hlen : (e ++ csBits H e).length = 11 * (e.length / 32 * 3) := by
+    rw [List.length_append, hcs]; omega
+  have hm : 1 ≤ e.length / 32 * 3 := by omega
+  refine ⟨indexesFromBits (e ++ csBits H e) (2 ^ 11), ?_, indexesFromBits_length 11 _ (by decide) _ hlen,
+    indexesFromBits_lt 11 _ (by decide) _ hlen, ?_⟩
+  · rw [bip39Indexes, entropyChecksum_of_mem H e hL, base_eq]
+  · unfold bip39Entropy
+    rw [base_eq, bitsFromIndexes_indexesFromBits 11 (by decide) _ _ hm hlen]
+    have hbits : (e ++ csBits H e).length * Gen.Mnemonic.CS_NUM / Gen.Mnemonic.CS_DEN = e.length := by
+      rw [hlen]; simp only [Gen.Mnemonic.CS_NUM, Gen.Mnemonic.CS_DEN]; omega
+    simp only [hbits, List.take_left' rfl, List.drop_left' rfl, entropyChecksum_of_mem H e hL]
+    simp
+
+theorem bip39Entropy_eq_some_iff_all (hH : ∀ b, (H b).length = 32) (idx : List Nat)
+    (hn : idx.length ∈ [12, 15, 18, 21, 24, 48]) (hlt : ∀ i ∈ idx, i < 2048) (e : Bits) :
+    bip39Entropy H idx = some e ↔ bip39Indexes H e = some idx ∧ e.length = idx.length / 3 * 32 := by
+  have hn' : idx.length = 12 ∨ idx.length = 15 ∨ idx.length = 18 ∨ idx.length = 21 ∨ idx.length = 24 ∨
+      idx.length = 48 := by
+    simpa using hn
+  constructor
+  · intro h
+    have hne : idx ≠ [] := by
+      intro h0; rw [h0] at hn'; simp at hn'
+    obtain ⟨cse, hc, hclen, hci⟩ := indexesFromBits_bitsFromIndexes 11 (by decide) idx hne hlt
+    unfold bip39Entropy at h
+    rw [base_eq, hc] at h
+    have hbits : cse.length * Gen.Mnemonic.CS_NUM / Gen.Mnemonic.CS_DEN = idx.length / 3 * 32 := by
+      rw [hclen]; simp only [Gen.Mnemonic.CS_NUM, Gen.Mnemonic.CS_DEN]; omega
+    have htl : (cse.take (idx.length / 3 * 32)).length = idx.length / 3 * 32 := by
+      rw [List.length_take, hclen]; omega
+    have hmem : (cse.take (idx.length / 3 * 32)).length ∈ Gen.Mnemonic.ENTROPY_BITS := by
+      rw [htl]; simp only [Gen.Mnemonic.ENTROPY_BITS]; simp; omega
+    simp only [hbits, entropyChecksum_of_mem H _ hmem] at h
+    split_ifs at h with hd
+    have he : cse.take (idx.length / 3 * 32) = e := by simpa using h
+    have hd' : cse.drop (idx.length / 3 * 32) = csBits H (cse.take (idx.length / 3 * 32)) := by
+      simpa using hd
+    refine ⟨?_, by rw [← he, htl]⟩
+    rw [bip39Indexes, ← he, entropyChecksum_of_mem H _ hmem]
+    simp only [← hd', List.take_append_drop, base_eq, hci]
+  · rintro ⟨h, hel⟩
+    obtain ⟨idx', h1, _, _, h4⟩ := bip39_roundtrip_all H hH e (by
+      simp only [Gen.Mnemonic.ENTROPY_BITS]; simp; omega)
+    rw [h] at h1
+    rw [Option.some.inj h1]
+    exact h4
+
+/-- a sentence `entropy_from_mnemonic` accepts has one of the six lengths (no hypothesis on `idx`) -/
+theorem bip39Entropy_some_length (hH : ∀ b, (H b).length = 32) (idx : List Nat) (e : Bits)
+    (h : bip39Entropy H idx = some e) :
+    idx.length ∈ [12, 15, 18, 21, 24, 48] ∧ ∀ i ∈ idx, i < 2048 := by
+  have hlt : ∀ i ∈ idx, i < 2048 := by
+    by_contra hc
+    have : bitsFromIndexes idx Gen.Mnemonic.BIP39_BASE = none := by
+      unfold bitsFromIndexes
+      rw [if_neg]
+      intro hall
+      exact hc fun i hi => by
+        have := List.all_eq_true.mp hall i hi
+        simp only [Gen.Mnemonic.BIP39_BASE] at this
+        exact of_decide_eq_true this
+    unfold bip39Entropy at h
+    rw [this] at h
+    simp at h
+  refine ⟨?_, hlt⟩
+  by_cases hne : idx = []
+  · subst hne
+    exact absurd h (by
+      have hb : bitsFromIndexes [] Gen.Mnemonic.BIP39_BASE = some [false] := by decide
+      have hs : binStrEntropyFromStr
+          (([false] : Bits).take (([false] : Bits).length * Gen.Mnemonic.CS_NUM / Gen.Mnemonic.CS_DEN)) = none := by
+        decide
+      have : bip39Entropy H [] = none := by
+        unfold bip39Entropy
+        rw [hb]
+        simp only
+        unfold entropyChecksum
+        rw [hs]
+      rw [this]; simp)
+  obtain ⟨cse, hc, hclen, _⟩ := indexesFromBits_bitsFromIndexes 11 (by decide) idx hne hlt
+  unfold bip39Entropy at h
+  rw [base_eq, hc] at h
+  simp only at h
+  generalize hb : cse.length * Gen.Mnemonic.CS_NUM / Gen.Mnemonic.CS_DEN = bits at h
+  have hb' : bits = 11 * idx.length * 32 / 33 := by
+    rw [← hb, hclen]; simp only [Gen.Mnemonic.CS_NUM, Gen.Mnemonic.CS_DEN]
+  have htl : (cse.take bits).length = bits := by
+    rw [List.length_take]; omega
+  have htop : Gen.Mnemonic.ENTROPY_BITS.foldl max 0 = 512 := by decide
+  by_cases hbig : bits > 512
+  · -- truncated to 512 bits: the checksum is 16 bits, the sentence has more left over
+    exfalso
+    have hbs : binStrEntropyFromStr (cse.take bits) =
+        some ((cse.take bits).take 512) := by
+      unfold binStrEntropyFromStr
+      simp only [htop]
+      rw [if_pos (by rw [htl]; exact hbig)]
+    unfold entropyChecksum at h
+    rw [hbs] at h
+    simp only at h
+    have hcsl : (List.take
+        ((bytesOfBits (List.take 512 (List.take bits cse))).length / Gen.Mnemonic.CS_DIV)
+        (zfill 256 (binStr (ofBE (H (bytesOfBits (List.take 512 (List.take bits cse)))))))).length
+        = 16 := by
+      rw [List.length_take, zfill256_length H hH, bytesOfBits, beBytes_length, List.length_take, htl]
+      simp only [Gen.Mnemonic.CS_DIV]
+      omega
+    generalize List.take
+        ((bytesOfBits (List.take 512 (List.take bits cse))).length / Gen.Mnemonic.CS_DIV)
+        (zfill 256 (binStr (ofBE (H (bytesOfBits (List.take 512 (List.take bits cse))))))) = cs
+      at h hcsl
+    by_cases hd : cse.drop bits = cs
+    · have := congrArg List.length hd
+      rw [List.length_drop, hcsl] at this
+      omega
+    · rw [if_pos hd] at h
+      simp at h
+  · have hmem : (cse.take bits).length ∈ Gen.Mnemonic.ENTROPY_BITS := by
+      by_contra hnm
+      have hbs : binStrEntropyFromStr (cse.take bits) = none := by
+        unfold binStrEntropyFromStr
+        simp only [htop]
+        rw [if_neg (by rw [htl]; exact hbig), if_neg (by simpa using hnm)]
+      unfold entropyChecksum at h
+      rw [hbs] at h
+      simp at h
+    rw [htl] at hmem
+    simp only [Gen.Mnemonic.ENTROPY_BITS] at hmem
+    simp at hmem ⊢
+    omega
+
+/-- **the accepted sentences are exactly the encoder's images**, no side condition -/
+theorem bip39Entropy_eq_some_iff_full (hH : ∀ b, (H b).length = 32) (idx : List Nat) (e : Bits) :
+    bip39Entropy H idx = some e ↔
+      idx.length ∈ [12, 15, 18, 21, 24, 48] ∧ bip39Indexes H e = some idx ∧
+        e.length = idx.length / 3 * 32 := by
+  constructor
+  · intro h
+    obtain ⟨hn, hlt⟩ := bip39Entropy_some_length H hH idx e h
+    exact ⟨hn, (bip39Entropy_eq_some_iff_all H hH idx hn hlt e).mp h⟩
+  · rintro ⟨hn, h1, h2⟩
+    obtain ⟨idx', h3, _, hlt, h4⟩ := bip39_roundtrip_all H hH e (by
+      have hn' : idx.length = 12 ∨ idx.length = 15 ∨ idx.length = 18 ∨ idx.length = 21 ∨
+          idx.length = 24 ∨ idx.length = 48 := by simpa using hn
+      simp only [Gen.Mnemonic.ENTROPY_BITS]; simp; omega)
+    rw [h1] at h3
+    rw [Option.some.inj h3]
+    exact h4
+
 example : ∃ idx, bip39Indexes (fun _ => List.replicate 32 7) (List.replicate 128 true) = some idx ∧
     idx.length = 12 ∧ bip39Entropy (fun _ => List.replicate 32 7) idx = some (List.replicate 128 true) := by
   obtain ⟨idx, h1, h2, _, h4⟩ := bip39_roundtrip (fun _ => List.replicate 32 7) (by simp)
